@@ -1079,11 +1079,14 @@ theorem selFold_equiv {m : Machine} {h : Hooks} (hok : HooksOK h) (hh : HooksPer
     (ev : Ev) {P : St → Prop} (hP : StepInv m h fl P) (b : Bool) : ∀ (l : List Cand) {s s' : St},
       St.equiv m s s' → P s →
       St.equiv m
-        (l.foldl (fun s c => if s.err.isSome then s else if b && !(s.cfg.contains c.src) then s
+        (l.foldl (fun s c => if s.err.isSome then s else if finished s.status then s
+          else if b && !(s.cfg.contains c.src) then s
           else execute h fl m ev (planTransition m s.cfg s.hist c) s) s)
-        (l.foldl (fun s c => if s.err.isSome then s else if b && !(s.cfg.contains c.src) then s
+        (l.foldl (fun s c => if s.err.isSome then s else if finished s.status then s
+          else if b && !(s.cfg.contains c.src) then s
           else execute h fl m ev (planTransition m s.cfg s.hist c) s) s') ∧
-      P (l.foldl (fun s c => if s.err.isSome then s else if b && !(s.cfg.contains c.src) then s
+      P (l.foldl (fun s c => if s.err.isSome then s else if finished s.status then s
+          else if b && !(s.cfg.contains c.src) then s
           else execute h fl m ev (planTransition m s.cfg s.hist c) s) s) := by
   intro l
   induction l with
@@ -1096,6 +1099,11 @@ theorem selFold_equiv {m : Machine} {h : Hooks} (hok : HooksOK h) (hh : HooksPer
       rw [if_pos h1, if_pos h1']; exact ih he hs
     · have h1' : ¬ s'.err.isSome = true := he.err ▸ h1
       rw [if_neg h1, if_neg h1']
+      by_cases h3 : finished s.status = true
+      · have h3' : finished s'.status = true := he.status ▸ h3
+        rw [if_pos h3, if_pos h3']; exact ih he hs
+      have h3' : ¬ finished s'.status = true := he.status ▸ h3
+      rw [if_neg h3, if_neg h3']
       by_cases h2 : (b && !(s.cfg.contains c.src)) = true
       · have h2' : (b && !(s'.cfg.contains c.src)) = true := he.cfg.contains_eq ▸ h2
         rw [if_pos h2, if_pos h2']; exact ih he hs
